@@ -737,6 +737,78 @@ func c10SubsetSizes(r *run.Run) {
 		})
 }
 
+// c10GlyfSizes: subsets of a TrueType font whose glyph data has a chosen total size around the limits of
+// the two "loca" formats (64 KiB: where the library changes format; 128 KiB: the most the short format can address).
+func c10GlyfSizes(r *run.Run) {
+	lists := [][]glyph.ID{{0, 1, 2}, {0, 2, 1, 3}, {0, 4, 1}, {0, 1}}
+	targets := []int{0xFFFC, 0xFFFE, 0x10000, 0x10002, 0x1FFFC, 0x1FFFE, 0x20000, 0x20002, 0x20004}
+	big := func(fill int) *glyf.Glyph {
+		body := append([]byte{0, 0, byte(fill >> 8), byte(fill)}, make([]byte, fill)...)
+		return &glyf.Glyph{Rect16: funit.Rect16{URx: 10, URy: 10}, Data: glyf.SimpleGlyph{NumContours: 1, Encoded: append(body, 0x31)}}
+	}
+	mk := func(fillA, fillB int) *sfnt.Font {
+		f, _ := FontFromChoices(gen.FontOpts{NoMeta: true, NoLayout: true}, 0, 1, 0, 0, 1)
+		o := *f.Outlines.(*glyf.Outlines)
+		small := &glyf.Glyph{Rect16: funit.Rect16{URx: 10, URy: 10}, Data: glyf.SimpleGlyph{NumContours: 1, Encoded: []byte{0, 0, 0, 0, 0x31}}}
+		comp := &glyf.Glyph{Rect16: funit.Rect16{URx: 10, URy: 10}, Data: glyf.CompositeGlyph{Components: []glyf.GlyphComponent{{Flags: 0x0002, GlyphIndex: 1, Data: []byte{0, 0}}}}}
+		o.Glyphs = glyf.Glyphs{small, big(fillA), big(fillB), small, comp}
+		o.Widths = []funit.Int16{500, 501, 502, 503, 504}
+		o.Names = nil
+		f.Outlines = &o
+		f.CMapTable = nil
+		return f
+	}
+	glyfSize := func(f *sfnt.Font) int { return len(f.Outlines.(*glyf.Outlines).Glyphs.Encode().GlyfData) }
+	r.Explore(explore.Config{Name: "C10.subset-glyf-sizes"},
+		"subsets (4 glyph lists, one of them through a composite glyph whose component is appended) of a TrueType font whose retained glyph data is exactly 0xFFFC..0x10002 or 0x1FFFC..0x20004 bytes long (the limits of the short and the switch to the long 'loca' format): the subset is written, read back and equals the subset in memory",
+		func(c *explore.Ctx) {
+			list := lists[c.Choose(len(lists), "glyph list")]
+			target := targets[c.Choose(len(targets), "glyph data size")]
+			base := glyfSize(mk(1, 1).Subset(list))
+			hasB := false
+			for _, g := range list {
+				hasB = hasB || g == 2
+			}
+			need := target - base // both fillers are odd: sizes stay even
+			fa, fb := 1, 1
+			if hasB {
+				fa += need / 4 * 2
+				fb += need - need/4*2
+			} else {
+				fa += need
+			}
+			if fa > 0xFFFF || fb > 0xFFFF {
+				c.Skip("one glyph cannot hold that much")
+			}
+			f := mk(fa, fb)
+			sub := f.Subset(list)
+			got := glyfSize(sub)
+			desc := fmt.Sprintf("list %v, glyph data %#x bytes (target %#x)", list, got, target)
+			c.Sample(func() any { return desc })
+			c.Outcome(desc)
+			if got == target {
+				c.Nontrivial()
+			}
+			buf := &bytes.Buffer{}
+			if _, err := sub.Write(buf); err != nil {
+				c.Fail("C10.write", "glyf sizes", "the subset cannot be written: %v; %s", err, desc)
+				return
+			}
+			back, err := sfnt.Read(bytes.NewReader(buf.Bytes()))
+			if err != nil || back.NumGlyphs() != sub.NumGlyphs() {
+				c.Fail("C10.reread", "glyf sizes", "the written subset cannot be read back with %d glyphs: %v; %s", sub.NumGlyphs(), err, desc)
+				return
+			}
+			bo, so := back.Outlines.(*glyf.Outlines), sub.Outlines.(*glyf.Outlines)
+			for i := range so.Glyphs {
+				if back.GlyphWidth(glyph.ID(i)) != sub.GlyphWidth(glyph.ID(i)) || !cmp.Equal(so.Glyphs[i], bo.Glyphs[i], cmpopts.EquateEmpty()) {
+					c.Fail("C10.reread", "glyf sizes glyph", "glyph %d of the re-read subset differs from the subset in memory; %s", i, desc)
+					return
+				}
+			}
+		})
+}
+
 // c10OutlinesSubset: (*cff.Outlines).Subset called directly (Font.Subset has its own code for CFF
 // outlines): glyph i of the result is the listed glyph with its private dictionary, font matrix and CID;
 // built-in encodings keep their meaning; the original is left alone.
@@ -972,6 +1044,10 @@ func c10ShortNames(r *run.Run) {
 			}
 			bo, so := back.Outlines.(*glyf.Outlines), sub.Outlines.(*glyf.Outlines)
 			for i := range so.Glyphs {
+				if back.GlyphName(glyph.ID(i)) != sub.GlyphName(glyph.ID(i)) || back.GlyphWidth(glyph.ID(i)) != sub.GlyphWidth(glyph.ID(i)) {
+					c.Fail("C10.reread", "short names: name or width", "glyph %d of the re-read subset has name %q and width %v, the subset in memory %q and %v; %s", i, back.GlyphName(glyph.ID(i)), back.GlyphWidth(glyph.ID(i)), sub.GlyphName(glyph.ID(i)), sub.GlyphWidth(glyph.ID(i)), desc)
+					return
+				}
 				if !reflect.DeepEqual(bo.Glyphs[i], so.Glyphs[i]) && !(bo.Glyphs[i] == nil && so.Glyphs[i] == nil) {
 					if d := cmp.Diff(so.Glyphs[i], bo.Glyphs[i], cmpopts.EquateEmpty()); d != "" {
 						c.Fail("C10.reread", "short names outline", "glyph %d of the re-read subset differs from the subset in memory; %s:\n%s", i, desc, trimDiff(d))
@@ -987,6 +1063,7 @@ func init() {
 		r.Rule = "bounded exhaustive enumeration of 6-glyph fonts x all duplicate-free glyph lists; oracle through the index map (unique advance widths identify original glyphs); closure = least fixed point of composite components and substitution outputs, computed independently; semantic preservation of rules via the reference shaper on all sequences of <= 3 retained glyphs (listed and appended)"
 		r.Assume = []string{"only layout data the subsetter declares supported: GSUB 1.1 / 4.1, GPOS 2.1, no GDEF", "characters mapping to glyphs that were appended by the closure may or may not be mapped"}
 		c10SubsetSizes(r)
+		c10GlyfSizes(r)
 		c10OutlinesSubset(r)
 		c10ShortNames(r)
 		c10Subset(r)
